@@ -14,6 +14,7 @@ import (
 	"github.com/risor-io/risor/compiler"
 	"github.com/risor-io/risor/internal/verifhook"
 	modAll "github.com/risor-io/risor/modules/all"
+	modFilepath "github.com/risor-io/risor/modules/filepath"
 	modFmt "github.com/risor-io/risor/modules/fmt"
 	modHTTP "github.com/risor-io/risor/modules/http"
 	modJSON "github.com/risor-io/risor/modules/json"
@@ -134,7 +135,7 @@ func c05Globals(h *Host) map[string]any {
 	return map[string]any{
 		"mark": h.Recorder("mark"), "emit": h.RecorderRet("emit", 1), "emits": h.Recorder("emits"),
 		"json": modJSON.Module(), "strings": modStrings.Module(), "fmt": modFmt.Module(), "math": modMath.Module(), "os": modOs.Module(),
-		"http": modHTTP.Module(),
+		"http": modHTTP.Module(), "filepath": modFilepath.Module(),
 		// host-supplied Go maps and a struct with map fields (conversion paths)
 		"hm":  map[string]any{"z": 1, "a": []any{1, 2}, "m": map[string]any{"k": "v", "b": 2}, "q": "s"},
 		"hmi": map[string]int{"one": 1, "two": 2, "three": 3},
@@ -337,6 +338,8 @@ func genC05Program(g *sim.Stream, tier string) string {
 		b.WriteString("emits(string(os.read_file(\"/data/seed.txt\")))\nemits(string(os.read_file(\"/data/deep/seed.txt\")))\nemits(string(os.read_file(\"/seed.txt\")))\n")
 		b.WriteString("emits(string(try(func() { return os.read_dir(\"/data\").map(func(e) { return e.name }) }, func(e) { return string(e) })))\n")
 		b.WriteString("emits(string(sorted(os.environ())))\nemits(string(os.environ()))\n")
+		b.WriteString("wk := []\ntry(func() { filepath.walk_dir(\"/data/dir\", func(p, d, e) { wk.append(p) }) }, func(e) { wk.append(string(e)) })\nemits(string(wk))\n")
+		b.WriteString("wk2 := []\ntry(func() { filepath.walk_dir(\"/dir\", func(p, d, e) { wk2.append(p) }) }, func(e) { wk2.append(string(e)) })\nemits(string(wk2))\n")
 		b.WriteString("emits(string(try(func() { return os.read_dir(\"/data/dir\").map(func(e) { return e.name }) }, func(e) { return string(e) })))\n")
 		b.WriteString("emits(string(try(func() { return os.read_dir(\"/dir\").map(func(e) { return e.name }) }, func(e) { return string(e) })))\n")
 	}
